@@ -285,9 +285,8 @@ macro_rules! impl_derivatives {
 
             #[inline]
             fn sph_j0(&self) -> Self {
-                if self.re().abs() < F::epsilon() {
-                    let s2 = self * self;
-                    Self::one() - s2.clone() / F::from(6.0).unwrap() + &s2 * &s2 / F::from(120.0).unwrap()
+                if self.re().abs() < F::one() {
+                    $crate::sph_jn_series(&(self * self), 0)
                 } else {
                     self.sin() / self
                 }
@@ -295,8 +294,8 @@ macro_rules! impl_derivatives {
 
             #[inline]
             fn sph_j1(&self) -> Self {
-                if self.re().abs() < F::epsilon() {
-                    self.clone() / F::from(3.0).unwrap() - self * self * self / F::from(30.0).unwrap()
+                if self.re().abs() < F::one() {
+                    self * $crate::sph_jn_series(&(self * self), 1)
                 } else {
                     let (s, c) = self.sin_cos();
                     (s - self * c) / (self * self)
@@ -305,9 +304,9 @@ macro_rules! impl_derivatives {
 
             #[inline]
             fn sph_j2(&self) -> Self {
-                if self.re().abs() < F::epsilon() {
+                if self.re().abs() < F::one() {
                     let s2 = self * self;
-                    s2.clone() / F::from(15.0).unwrap() - &s2 * &s2 / F::from(210.0).unwrap()
+                    &s2 * $crate::sph_jn_series(&s2, 2)
                 } else {
                     let (s, c) = self.sin_cos();
                     let s2 = self * self;
